@@ -22,6 +22,9 @@ type flowOpts struct {
 	cleanScalars bool
 	// intoClosures: propagate through free variables into anonymous functions
 	intoClosures bool
+	// blockStore: a store to an address for which this returns true does not
+	// propagate (the caller accounts for that memory separately)
+	blockStore func(addr ssa.Value) bool
 }
 
 type flowResult struct {
@@ -110,7 +113,7 @@ func flowForward(fn *ssa.Function, seeds []ssa.Value, o flowOpts) *flowResult {
 				for _, in := range b.Instrs {
 					switch x := in.(type) {
 					case *ssa.Store:
-						if res.tainted[x.Val] {
+						if res.tainted[x.Val] && (o.blockStore == nil || !o.blockStore(x.Addr)) {
 							if mark(x.Addr) {
 								changed = true
 							}
